@@ -65,6 +65,13 @@ PROBES = [
 # trailing statements that change core / generator state (predecessor tails and forced-pass tails)
 FAIL_PREDS = [
     ("open-if", ["\tif 1", "\tbyt 1"]),
+    ("open-if-not-taken", ["\tif 0", "\tbyt 1"]),
+    ("open-else-of-taken-if", ["\tif 1", "\tbyt 1", "\telse", "\tbyt 2"]),
+    ("open-elseif-after-taken", ["\tif 1", "\tbyt 1", "\telseif 1", "\tbyt 2"]),
+    ("open-ifdef-undefined", ["\tifdef nosuchsymbol", "\tbyt 1"]),
+    ("open-nested-if-in-skipped", ["\tif 0", "\tif 1", "\tbyt 1", "\tendif"]),
+    ("open-switch-no-match", ["\tswitch 1", "\tcase 2", "\tbyt 1"]),
+    ("open-switch-after-match", ["\tswitch 1", "\tcase 1", "\tbyt 1", "\tcase 3", "\tbyt 2"]),
     ("open-macro", ["m1\tmacro", "\tbyt 1"]),
     ("open-section", ["\tsection s1", "\tbyt 1"]),
     ("open-struct", ["st1\tstruct", "f1\tds.b 1"]),
@@ -720,6 +727,9 @@ def run(args):
             fam = sorted({n for c in s["cpus"] for n in cpu_idx.get(c, ()) if n in ok_names})
             if not fam:
                 continue
+            # successors that select the very CPU the setter was accepted on come first (the variable is certainly live there)
+            own = [n for n in fam if n in cpu_idx.get(s["cpu"].upper(), ())]
+            fam = own + [n for n in fam if n not in own]
             f = os.path.join(wd, "set_%s.asm" % s["file"][:-2])
             open(f, "w").write("\n".join(s["lines"]) + "\n")
             sp = run_paths(bdir, wd, "sets", [f])
